@@ -109,6 +109,42 @@ def replay_case(args):
     return out
 
 
+def oversample_case(seed):
+    """discretize_method='oversample' with factor k: a pixel holds the mean of the model over its k x k sub-pixel centres.  For the
+    quadratic probe f = flux * ((x - x_0)^2 + (y - y_0)^2) that mean is the centre value + flux * 2 (k^2 - 1) / (12 k^2), on the window."""
+    from astropy.modeling import Fittable2DModel, Parameter
+    from astropy.table import Table
+    from photutils.datasets import make_model_image
+    warnings.simplefilter('ignore')
+    if 'quad' not in _M:
+        class QuadProbe(Fittable2DModel):
+            flux = Parameter(default=1.0)
+            x_0 = Parameter(default=0.0)
+            y_0 = Parameter(default=0.0)
+
+            @staticmethod
+            def evaluate(x, y, flux, x_0, y_0):
+                return flux * ((x - x_0) ** 2 + (y - y_0) ** 2)
+        _M['quad'] = QuadProbe
+    rng = np.random.default_rng(seed)
+    shape = (int(rng.integers(6, 12)), int(rng.integers(6, 12)))
+    n = int(rng.integers(1, 4))
+    t = Table()
+    t['x_0'] = rng.integers(-2, shape[1] + 2, n) + rng.choice([0.0, 0.25, 0.5], n)
+    t['y_0'] = rng.integers(-2, shape[0] + 2, n) + rng.choice([0.0, 0.25, 0.5], n)
+    t['flux'] = rng.integers(1, 5, n).astype(float)
+    ms = (int(rng.choice([3, 5])), int(rng.choice([3, 4, 5])))
+    out = []
+    center = make_model_image(shape, _M['quad'](), t, model_shape=ms, discretize_method='center')
+    cover = make_model_image(shape, _M['quad'](), Table({'x_0': t['x_0'], 'y_0': t['y_0'], 'flux': t['flux'] * 0.0, 'local_bkg': t['flux']}), model_shape=ms)
+    for k in (1, 2, 3, 4, 7):
+        img = make_model_image(shape, _M['quad'](), t, model_shape=ms, discretize_method='oversample', discretize_oversample=k)
+        exp = center + cover * (2.0 * (k * k - 1) / (12.0 * k * k))         # `cover` = sum of the fluxes of the rows whose window holds the pixel
+        if img.shape != exp.shape or not np.allclose(img, exp, rtol=1e-10, atol=1e-9):
+            out.append(('oversampled_pixel_is_the_mean_over_its_subpixel_centres', {'factor': k}, {'seed': seed, 'max_abs_diff': float(np.max(np.abs(img - exp)))}))
+    return out
+
+
 def replay_cutout(c):
     """Cutout.tla case -> CutoutImage in the three modes (index-valued image shows which pixels were selected)"""
     from astropy.nddata.utils import NoOverlapError, PartialOverlapError
@@ -259,6 +295,11 @@ def run(ctx):
         for v in vs:
             ctx.violation(*v)
     ctx.evaluations += len(ccases); ctx.traces += len(ccases)
+    ov = core.pmap(oversample_case, [ctx.seed * 13 + i for i in range(64 if q else 600)], chunksize=8)
+    for vs in ov:
+        for v in vs:
+            ctx.violation(*v)
+    ctx.evaluations += len(ov); ctx.traces += len(ov)
     pr = core.pmap(psfphot_pairs, [ctx.seed * 7 + i for i in range(4 if q else 12)], procs=8, chunksize=1)
     for vs in pr:
         for v in vs:
